@@ -64,6 +64,10 @@ CHECKS['C07'] = (OTHER, 'symbolic execution of the real Panel.calc_fext / PanelA
     'Bounded symbolic verification for all force positions, components, load factors, amplitudes, flags, geometry: load vector = virtual work of the loads (constant forces unscaled, incrementable ones scaled), assembly slices at the panel ranges, K c = f on active rows and c = 0 on null columns for null patterns of sizes 4..6.',
     'spsolve is a contract stub; bay load vectors are claimed with C13; linearity in the loads is a corollary.',
     'DESIGN.md section 4 C07')
+CHECKS['C13'] = (OTHER, 'relational symbolic execution of the real StiffPanelBay / PanelAssembly objects (all bookkeeping) over de-Cythonised panel, connection and stiffener kernels: global result vs re-composition of stand-alone component results at independently derived ranges; skin partition under the C10 additivity lemma; z3 qfnra-nlsat; exact-rational replay',
+    'Bounded symbolic verification of the assembly layers for bays with 0..2 (thorough 4) stiffeners of the three kinds in any order, with/without base, assemblies of 2-3 panels of unequal series orders: size = sum of component sizes, k0/kG0/kM (and kT, fint, fext, recovered fields) = sum of component results at their ranges + connection terms, skin cut at 1..2 (4) symbolic positions leaves k0,kG0,kM unchanged.',
+    'Composition only: component contents are decided in C02-C04/C12; stiffener beam-energy/PSD not decided; bay dimensions concrete; laminates of sub-components are symbolic stubs.',
+    'DESIGN.md section 4 C13')
 NA = {
     'C15': 'eigenvalue monotonicity/convergence for pencils of size 48..768 is not a bounded first-order query any installed solver can decide; the algebraic ingredients (exact Hessians, exact tables, nestedness) are decided under C02-C04 and C10 (DESIGN.md section 5)',
 }
